@@ -7,10 +7,17 @@ ALL = ["C%02d" % i for i in range(1, 21)]
 
 # id -> (level category, technique, level text, level note, design ref)
 CHECKS = {
+    "C13": (
+        "translation_validation",
+        "bounded-exhaustive enumeration of (grammar, lexer, builder settings) cases, each compiled by the real compile-time builders + rustc and compared with the run-time pipeline on every input up to a length",
+        "The ctrt crate's build script runs the real CTLexerBuilder / CTParserBuilder of the working tree over: the four yacc kinds x two recoverers on two base grammars, every single deviation (thorough: the full product) of serialisation format, Rust edition (2015/2018/2021) and visibility (private, pub, pub(crate), pub(super), pub(self), pub(in path)), a %parse-param case, a family of grammars (empty-production idioms, operator skeletons, the seed grammars) whose generated actions are observers (each action returns an S-expression built from $1..$n with Ok / Err lexemes, $span, $lexer.span_str and a literal $$), and a lexer-centred case (flags in the %grmtools section, exclusive start state with push / pop, skip rules, non-ASCII token name). rustc compiles all generated modules; for every module and every input of up to 3-5 characters over the case's alphabet the generated lexer and parser are compared with LRNonStreamingLexerDef::from_str + set_rule_ids and RTParserBuilder on the same sources: same lexemes, same R_* / N_* constants and token_epp, same value (generic tree, or observer S-expression against run-time recording closures), same errors with the same repair sets. A syntactic inventory of every generated parser fails closed on any shared mutable state other than the one OnceLock.",
+        "rustc, quote, syn, prettyplease are trusted. Eco cannot be built at compile time. Later errors are compared only while both sides applied the same (arbitrary) first repair.",
+        "DESIGN.md 3/C13",
+    ),
     "C15": (
         "model_checking",
         "exhaustive enumeration of hash-map iteration orders (process-level hash seed owned through a getrandom shim, seeds enumerated until every permutation of every observable map occurred) x specifications; digests of all public queries and of generated code compared across processes; thread schedules of first use explored with shuttle in the ctrt crate",
-        "The harness re-executes itself under 48 (thorough 256) different, owned hash seeds. In each process every specification (a declaration-rich grammar in three yacc kinds incl. Eco with 3-4 implicit tokens, 3 %avoid_insert / precedence / %epp tokens, states with 3 outgoing edges and several conflicts; every grammar of a universe; the seed grammars) is turned into grammar, state graph and table on a fresh thread, and three grammar/lexer pairs are run through the real compile-time builders. The digest of the complete query dump (conflicts as a set) and of the generated files must be identical in all processes. For every randomly seeded map reachable through the public API (ast.implicit_tokens, avoid_insert, precs, epp, graph edges of 3-edge states) the iteration orders seen are recorded and the run is only reported exhaustive when every permutation of every such map occurred. The schedule part (several threads calling a generated parser for the first time) is explored by shuttle in /verif/harness/ctrt and reported under C13's evidence.",
+        "The harness re-executes itself under 48 (thorough 256) different, owned hash seeds. In each process every specification (a declaration-rich grammar in three yacc kinds incl. Eco with 3-4 implicit tokens, 3 %avoid_insert / precedence / %epp tokens, states with 3 outgoing edges and several conflicts; every grammar of a universe; the seed grammars) is turned into grammar, state graph and table on a fresh thread, and three grammar/lexer pairs are run through the real compile-time builders. The digest of the complete query dump (conflicts as a set) and of the generated files must be identical in all processes. For every randomly seeded map reachable through the public API (ast.implicit_tokens, avoid_insert, precs, epp, graph edges of 3-edge states) the iteration orders seen are recorded and the run is only reported exhaustive when every permutation of every such map occurred. Thread schedules: one real generated parser module is re-bound at build time from ::std::sync::OnceLock to a stand-in with the same API whose lock operations are shuttle scheduling points; shuttle's depth-first scheduler explores ALL interleavings of 3 threads each calling parse twice (first + cached use; 4666 schedules) and of 2 threads with an extra scheduling point between the fast-path look and the lock (659 schedules): every thread must get the sequential result and the parser data must be reconstituted exactly once per execution.",
         "Orders of maps that are never exposed cannot be observed (same seeds run). std::sync::OnceLock is trusted.",
         "DESIGN.md 3/C15",
     ),
@@ -142,7 +149,7 @@ CHECKS = {
     ),
 }
 
-NOT_YET = "check not built yet in this session (design in DESIGN.md section 3); no claim is made"
+NOT_YET = "no check built; no claim is made"
 
 def main():
     hooks_commit = subprocess.run(
